@@ -177,7 +177,7 @@ def replay_alias(prop, case):
     edge = {"pre": case["pre"], "lab": case["lab"], "outs": case["outs"]}
     pr = alias_case(spec, edge, case["mode"], case.get("variant", 0))
     if pr:
-        print(f"VIOLATION property={prop} replay=(reproduced) {pr[0]}")
+        print(f"VIOLATION property={prop} replay={__import__('os').environ.get('VERIF_REPLAY_PATH', '-')} {pr[0]}")
         return 1
     print("not reproduced on this tree")
     return 0
@@ -317,7 +317,7 @@ def replay_rt(prop, case):
     edge = {"pre": case["pre"], "lab": case["lab"], "outs": case["outs"]}
     pr = rt_edge(spec, case["position"], edge, case.get("variant", 0), POOLS[case.get("pool", 0)])
     if pr:
-        print(f"VIOLATION property={prop} replay=(reproduced) {pr[0]}")
+        print(f"VIOLATION property={prop} replay={__import__('os').environ.get('VERIF_REPLAY_PATH', '-')} {pr[0]}")
         return 1
     print("not reproduced on this tree")
     return 0
@@ -557,7 +557,7 @@ def replay_c11(prop, case):
     edge = {"pre": case["pre"], "lab": case["lab"], "outs": case["outs"]}
     pr = c11_edge(spec, case["fam"], case["position"], edge, case.get("variant", 0))
     if pr:
-        print(f"VIOLATION property={prop} replay=(reproduced) {pr[0]}")
+        print(f"VIOLATION property={prop} replay={__import__('os').environ.get('VERIF_REPLAY_PATH', '-')} {pr[0]}")
         return 1
     print("not reproduced on this tree")
     return 0
